@@ -1,29 +1,71 @@
-(* RunC12.v — executable wrappers (model answers as lists of integers) for the C12 cases. *)
+(* RunC12.v — executable wrappers (model answers as lists of integers) for the C12 cases.
+
+   Parsing integer literals dominates the time Coq spends on a generated case file (about 0.3 ms per
+   literal, much more above 62 bits), so stimulus and answers are packed: several cycles per integer,
+   each integer below 2^60. *)
 From Coq Require Import ZArith List Bool.
 From V.Model Require Export Bits Fifo.
 From V.Harness Require Import Run.
 Import ListNotations.
 Open Scope Z_scope.
 
-(* one cycle of stimulus packed in one integer: w_en + 2 * r_en + 4 * w_data *)
+(* one cycle of stimulus: w_en + 2 * r_en + 4 * w_data   (w_data < 2^(w+3): w + 5 bits) *)
 Definition dec_inp (x : Z) : inp := Inp (Z.odd x) (x / 4) (Z.odd (x / 2)).
 
-(* one cycle of outputs packed in one integer (keeps the generated case files small):
-   w_rdy + 2 * r_rdy + 4 * (level + 256 * (w_level + 256 * (r_level + 256 * r_data))),
-   r_data taken as 0 while r_rdy = 0 (unspecified then); levels are < 256 for every generated depth *)
-Definition enc_out (o : out) : list Z :=
+(* one cycle of outputs:
+     w_rdy + 2 * r_rdy + 4 * (level + 32 * (r_data + 2^w * (dw + 256 * dr)))
+   with r_data taken as 0 while r_rdy = 0 (unspecified then), dw = (w_level - level) mod 256 and
+   dr = (r_level - level) mod 256.  All generated depths are < 32, so the code has w + 7 bits whenever the
+   three levels agree (if they do not, the harness' monitor reports it as well). *)
+Definition enc_out (w : Z) (o : out) : Z :=
   let v := vis o in
-  [b2l (w_rdy v) + 2 * b2l (r_rdy v) + 4 * (level v + 256 * (w_level v + 256 * (r_level v + 256 * r_data v)))].
+  b2l (w_rdy v) + 2 * b2l (r_rdy v) +
+  4 * (level v + 32 * (r_data v + 2 ^ w * ((w_level v - level v) mod 256 + 256 * ((r_level v - level v) mod 256)))).
 
-Definition enc_trace (t : list out) : list Z := flat_map enc_out t.
+(* cycles per packed integer *)
+Definition per_chunk (w : Z) : nat := Z.to_nat (60 / (w + 7)).
+
+(* little-endian digits of b bits *)
+Fixpoint digits (b : Z) (k : nat) (x : Z) : list Z :=
+  match k with
+  | O => []
+  | S k' => x mod 2 ^ b :: digits b k' (x / 2 ^ b)
+  end.
+Definition unchunk (b : Z) (k n : nat) (chunks : list Z) : list Z :=
+  firstn n (flat_map (digits b k) chunks).
+
+Fixpoint pack (b : Z) (xs : list Z) : Z :=
+  match xs with
+  | [] => 0
+  | x :: r => x + 2 ^ b * pack b r
+  end.
+Fixpoint chunk (b : Z) (k fuel : nat) (xs : list Z) : list Z :=
+  match fuel, xs with
+  | O, _ => []
+  | _, [] => []
+  | S f, _ => pack b (firstn k xs) :: chunk b k f (skipn k xs)
+  end.
+
+Definition enc_trace (w : Z) (t : list out) : list Z :=
+  chunk (w + 7) (per_chunk w) (length t) (map (enc_out w) t).
+Definition dec_stim (w n : Z) (chunks : list Z) : list inp :=
+  map dec_inp (unchunk (w + 5) (per_chunk w) (Z.to_nat n) chunks).
+
+(* configuration in one integer: width + 16 * (depth + 256 * number of cycles) *)
+Definition cfg_w (cfg : Z) : Z := cfg mod 16.
+Definition cfg_d (cfg : Z) : Z := (cfg / 16) mod 256.
+Definition cfg_n (cfg : Z) : Z := cfg / 4096.
 
 (* the trailing 0 pairs with the verdict of the harness' deque monitor (0 = no complaint) *)
-Definition k_syncfifo (w d : Z) (xs : list Z) : list Z :=
-  enc_trace (sync_run w d (map dec_inp xs)) ++ [0].
-Definition k_buffered (w d : Z) (xs : list Z) : list Z :=
-  enc_trace (buf_run w d (map dec_inp xs)) ++ [0].
-(* the bounded-queue specification itself, run as a machine (used for a sanity cross-check) *)
-Definition k_queue (w d : Z) (xs : list Z) : list Z :=
-  enc_trace (q_run w d (map dec_inp xs)) ++ [0].
+Definition k_sync (cfg : Z) (chunks : list Z) : list Z :=
+  let w := cfg_w cfg in
+  enc_trace w (sync_run w (cfg_d cfg) (dec_stim w (cfg_n cfg) chunks)) ++ [0].
+Definition k_buf (cfg : Z) (chunks : list Z) : list Z :=
+  let w := cfg_w cfg in
+  enc_trace w (buf_run w (cfg_d cfg) (dec_stim w (cfg_n cfg) chunks)) ++ [0].
+(* the bounded-queue specification itself, run as a machine (sanity cross-check) *)
+Definition k_queue (cfg : Z) (chunks : list Z) : list Z :=
+  let w := cfg_w cfg in
+  enc_trace w (q_run w (cfg_d cfg) (dec_stim w (cfg_n cfg) chunks)) ++ [0].
 (* constructor acceptance *)
 Definition k_ctor (w d : Z) : list Z := [b2l (ctor_ok w d)].
